@@ -17,7 +17,7 @@ EXPLANATION = (
     "from the caller's own beta; a literal zero is passed only by the *_uninit entry points or paired with a scratch tile "
     "pointer, and one() only on a non-first depth block (guard depth_range.start == 0 false) or after the first gemv kernel "
     "call; (init) gemm_impl's Ok exits are reached only through a full initialisation (init_from / fill / apply / gemv / the "
-    "blocked loop); (beta-only-output) in every kernel function a value assigned under a beta test and live outside it derives from an output read or is the zero replacing it, so beta selects/scales only the C term. (alpha-honoured) every Kernel::kernel / gemv_kernel impl reads its alpha parameter (the x86-64 int8 impls do not: known findings). Numerical correctness of alpha*A*B + beta*C + bias and tile coverage arithmetic are not decided.")
+    "blocked loop); (beta-only-output) in every kernel function a value assigned under a beta test and live outside it derives from an output read or is the zero replacing it, so beta selects/scales only the C term. (alpha-honoured) every Kernel::kernel / gemv_kernel impl reads its alpha parameter (the x86-64 int8 impls do not: known findings). Numerical correctness of alpha*A*B + beta*C + bias and tile coverage arithmetic are not decided. (alpha-scales-product) alpha multiplies only values whose provenance contains no read of the output: alpha * A.B + beta * C, never alpha * (A.B + beta * C).")
 ASSUMPTIONS = ["names of the beta-carrying parameters (beta, effective_beta, dest_beta, accumulate, MatVecOutput.beta) identify the beta flow; the forward rule ties them to the API's beta",
                "a kernel call writes every element of the tile it is given (used_rows x used_cols): tile coverage is value-level"]
 
@@ -36,6 +36,7 @@ def run(ctx):
     beta_forward(ctx, fb, T)
     init_all(ctx, fb)
     scales_output(ctx, fb)
+    alpha_scales_product(ctx, fb)
     prepack_stride(ctx, fb)
     alpha_honoured(ctx, fb)
     import C17
@@ -739,6 +740,56 @@ def scales_output(ctx, fb):
                     break
     ctx.floor(R, 'multiplications by beta', n, 6)
 
+
+
+def alpha_value(fb, f, op):
+    """the operand is the kernel's alpha parameter or a vector splat of it"""
+    r = f.resolve_copy(op)
+    if r[0] == 'call' and (r[1].callee or '').endswith('::splat') and len(r[1].args) > 1:
+        return alpha_value(fb, f, r[1].args[1])
+    if r[0] == 'rv' and r[1][0] == 'bin':
+        return False
+    og, of = outer_origins(fb, f, op)
+    def named(ff, ogs):
+        return any(o[0] == 'param' and pname(ff, o[1]) in ('alpha',) for o in ogs) and not any(o[0] == 'binop' for o in ogs)
+    return named(of, og) or named(f, f.origins(op))
+
+
+def alpha_scales_product(ctx, fb):
+    """alpha multiplies the new product (alpha * A.B) and never a value that already contains the previous output:
+    alpha * (acc + beta * C) scales C by alpha * beta (and, across depth blocks accumulated with beta = 1, re-scales the
+    partial sum once per block)"""
+    R = 'C16.alpha-scales-product'
+    n = 0
+    cnt = {}
+    for f in fb.fns(crate='rten_gemm'):
+        if not f.has_mir() or '::tests' in f.path:
+            continue
+        sites = []
+        for c in f.calls():
+            cal = c.callee or ''
+            if re.search(r'(NumOps|FloatOps)::(mul|mul_add|mul_sub_from)$', cal) and len(c.args) >= 3:
+                sites.append((c.args[1], c.args[2], c.loc(), cal.split('::')[-1]))
+            elif re.search(r'arith::Mul::mul$', cal) and len(c.args) == 2:
+                sites.append((c.args[0], c.args[1], c.loc(), 'Mul::mul'))
+        for i, b in enumerate(f.bbs):
+            if b.get('c') or i not in f.live():
+                continue
+            for st in b['s']:
+                if st[0] == '=' and st[2][0] == 'bin' and st[2][1].startswith('Mul'):
+                    sites.append((st[2][2], st[2][3], '%s:%s' % (f.file, st[3] if len(st) > 3 else ''), 'Mul'))
+        for (x, y, loc, what) in sites:
+            for (a_, o_) in ((x, y), (y, x)):
+                if alpha_value(fb, f, a_):
+                    n += 1
+                    short = re.sub(r'<|>| as kernels::Kernel', '', f.path.replace('rten_gemm::', ''))[-60:]
+                    base = '%s|%s' % (short, what)
+                    cnt[base] = cnt.get(base, 0) + 1
+                    bad = output_read_derived(fb, f, o_)
+                    ctx.inst(R, '%s#%d' % (base, cnt[base]), not bad, 'alpha multiplies a value that does not contain the previous output' if not bad else
+                             'alpha multiplies a value that includes a read of the output: the kernel computes alpha * (A.B + beta * C) instead of alpha * A.B + beta * C, wrong whenever alpha != 1 and the output is accumulated into (beta != 0, or a later depth block)', loc)
+                    break
+    ctx.floor(R, 'multiplications by alpha', n, 4)
 
 
 def prepack_stride(ctx, fb):
